@@ -650,6 +650,12 @@ impl Explorer<'_, '_> {
             (None, r) => (r, "", ""),
         };
         let set = crate::iset::scalar_only(&class_of(class_re, &env).expect("class sweep needs a class"));
+        // several rules, each a bare class: the first listed rule containing the character wins
+        let multi: Vec<crate::iset::ISet> = if spec.sets[0].rules.len() > 1 && prefix.is_empty() && suffix.is_empty() && spec.sets[0].rules.iter().all(|r| r.ctx.is_none() && class_of(&r.re, &env).is_some()) {
+            spec.sets[0].rules.iter().map(|r| crate::iset::scalar_only(&class_of(&r.re, &env).unwrap())).collect()
+        } else {
+            vec![]
+        };
         let mut points: Vec<u32> = vec![];
         if self.plan.sweep_all {
             points.extend((0..=0x10FFFFu32).filter(|c| char::from_u32(*c).is_some()));
@@ -691,13 +697,14 @@ impl Explorer<'_, '_> {
             let args = RunArgs { input: &input, script: &[], ctor: self.plan.ctors[0], probes: false, nones: 1, no_text: true, split: 0 };
             let (t, _, _) = (self.l.runner)(&args, &Mode::Plain);
             self.c.executions += 1;
-            let member = crate::iset::contains(&set, q);
+            let winner: Option<usize> = if multi.is_empty() { if crate::iset::contains(&set, q) { Some(0) } else { None } } else { multi.iter().position(|s| crate::iset::contains(s, q)) };
+            let member = winner.is_some();
             if member {
                 self.c.rewinds += 1; // counts members seen (non-vacuity), reported under its own name
             }
             let lexeme_end = if prefix.is_empty() { input.len() } else { prefix.len() };
             let ok = match t.first().map(|s| &s.item) {
-                Some(Item::Tok(a, 0, b)) => member && a.byte_idx == 0 && b.byte_idx == lexeme_end,
+                Some(Item::Tok(a, r, b)) => Some(*r) == winner && a.byte_idx == 0 && b.byte_idx == lexeme_end,
                 Some(Item::Invalid(l)) => !member && l.byte_idx == 0,
                 _ => false,
             };
@@ -708,7 +715,7 @@ impl Explorer<'_, '_> {
                     self.plan.ctors[0],
                     (
                         format!("U+{q:04X} is {}a member of the class but the generated lexer {}", if member { "" } else { "not " }, if member { "does not match it" } else { "matches it" }),
-                        if member { format!("token 0 over bytes 0..{lexeme_end}") } else { "InvalidToken at 0".into() },
+                        if let Some(w) = winner { format!("token {w} over bytes 0..{lexeme_end}") } else { "InvalidToken at 0".into() },
                         format!("{:?}", t.first().map(|s| &s.item)),
                     ),
                 );
